@@ -742,6 +742,32 @@ class Models:
         I.ctx.writeback(l)
         return v
 
+    def meth_VList_remove(self, I, l, x):
+        """list.remove(x): first occurrence removed  (l == A.[x].B, x not in A, l' == A.B); ValueError if absent."""
+        if len(l.seqs) != 1:
+            raise OutOfSubset('list.remove on a multi-component list')
+        ctx = I.ctx
+        q = l.seqs[0]
+        xt = I.ctx.store_terms(x, l.t)[0]
+        M = ctx.membership
+        if not ctx.branch(M.mem(q, xt)):
+            I.raise_py(ValueError)
+        # an assumed unique-occurrence fact may only be used where its guard provably holds on this path
+        known = [u for u in M.unique_occ if u[0].eq(q) and u[1].eq(xt)
+                 and (len(u) < 5 or u[4] is None or not ctx.feasible(z3.Not(u[4])))]
+        if known:
+            # the path already knows the (unique) occurrence of x in q: the first occurrence is that one
+            A, B = known[0][2], known[0][3]
+        else:
+            A = ctx.fresh('rm_A', q.sort())
+            B = ctx.fresh('rm_B', q.sort())
+            ctx.assume(z3.And(q == z3.Concat(A, z3.Unit(xt), B), z3.Not(M.mem(A, xt))), defines=[A, B])
+            M.equation(q, z3.Concat(A, z3.Unit(xt), B))
+        l.seqs = [z3.Concat(A, B)]
+        l.view = None
+        ctx.writeback(l)
+        return VNone()
+
     def meth_VList_reverse(self, I, l):
         raise OutOfSubset('list.reverse on a symbolic list')
 
